@@ -1,18 +1,1673 @@
-//! C14 — not built yet.
+//! C14 — hosts files are read as hosts(5) describes and convert losslessly.
+//!
+//! Bounded-exhaustive enumeration of hosts-file texts built from a line
+//! grammar (address forms x name lists x separators x comment positions x
+//! line ends; 1..3-line files over a line alphabet; malformed classes).  Every
+//! text goes through the real `Hosts::deserialise` and is compared with a
+//! small reference reader written from hosts(5) as restated by the property;
+//! every successfully read value then goes through serialise/deserialise,
+//! `Zone::from`, `Hosts::try_from`, `Hosts::from_zone_lossy` and
+//! `Zone::resolve`.  A sub-corpus is also pushed through the `htoh`, `htoz`
+//! and `ztoh --strict` binaries.
+
 use crate::common::*;
-use serde_json::Value;
+use crate::util::*;
+use dns_types::hosts::types::Hosts;
+use dns_types::protocol::types::*;
+use dns_types::zones::types::{Zone, ZoneResult};
+use serde_json::{json, Value};
+use std::collections::{BTreeMap, HashSet};
+use std::io::Write as _;
+use std::net::{Ipv4Addr, Ipv6Addr};
+use std::panic::{catch_unwind, AssertUnwindSafe};
+use std::path::PathBuf;
+use std::process::{Command, Stdio};
 
-pub fn run(_ctx: &Ctx) -> i32 {
-    eprintln!("C14: check not built");
-    2
+const SLUG_NAME_HASH: &str = "hosts-comment-directly-after-name";
+const SLUG_NONASCII: &str = "hosts-non-ascii-directly-after-hash";
+const CLAUSE_NAME_HASH: &str = "comment-directly-after-name";
+const CLAUSE_NONASCII: &str = "comment-non-ascii";
+
+// =====================================================================
+// Reference model (hosts(5) as restated by the property)
+// =====================================================================
+
+#[derive(Clone, Debug, Default, PartialEq, Eq)]
+struct RefHosts {
+    /// canonical lower-case absolute name ("foo.bar.") -> address
+    v4: BTreeMap<String, [u8; 4]>,
+    v6: BTreeMap<String, [u8; 16]>,
 }
 
-pub fn replay(_ctx: &Ctx, _v: &Value) -> i32 {
-    eprintln!("C14: check not built");
-    2
+impl RefHosts {
+    fn show(&self) -> Value {
+        let mut v: Vec<String> = Vec::new();
+        for (n, a) in &self.v4 {
+            v.push(format!("{n} A {}", Ipv4Addr::from(*a)));
+        }
+        for (n, a) in &self.v6 {
+            v.push(format!("{n} AAAA {}", Ipv6Addr::from(*a)));
+        }
+        json!(v)
+    }
+    fn len(&self) -> usize {
+        self.v4.len() + self.v6.len()
+    }
 }
 
-/// Entry point for `vcheck worker C14 <args...>` (child-process mode).
+#[derive(Clone, Debug, PartialEq, Eq)]
+enum RefAddr {
+    V4([u8; 4]),
+    V6([u8; 16]),
+}
+
+fn ref_parse_v4(s: &str) -> Option<[u8; 4]> {
+    let parts: Vec<&str> = s.split('.').collect();
+    if parts.len() != 4 {
+        return None;
+    }
+    let mut out = [0u8; 4];
+    for (i, p) in parts.iter().enumerate() {
+        if p.is_empty() || p.len() > 3 || !p.bytes().all(|b| b.is_ascii_digit()) {
+            return None;
+        }
+        if p.len() > 1 && p.starts_with('0') {
+            return None; // never generated; see assumptions
+        }
+        let v: u32 = p.parse().ok()?;
+        if v > 255 {
+            return None;
+        }
+        out[i] = v as u8;
+    }
+    Some(out)
+}
+
+/// Groups of one side of a `::` (or of the whole address).  `may_end_v4`:
+/// the last piece may be a dotted quad standing for two groups.
+fn ref_v6_groups(part: &str, may_end_v4: bool) -> Option<Vec<u16>> {
+    if part.is_empty() {
+        return Some(Vec::new());
+    }
+    let pieces: Vec<&str> = part.split(':').collect();
+    let mut out = Vec::new();
+    for (i, p) in pieces.iter().enumerate() {
+        if p.contains('.') {
+            if !(may_end_v4 && i == pieces.len() - 1) {
+                return None;
+            }
+            let q = ref_parse_v4(p)?;
+            out.push(u16::from(q[0]) << 8 | u16::from(q[1]));
+            out.push(u16::from(q[2]) << 8 | u16::from(q[3]));
+        } else {
+            if p.is_empty() || p.len() > 4 || !p.bytes().all(|b| b.is_ascii_hexdigit()) {
+                return None;
+            }
+            out.push(u16::from_str_radix(p, 16).ok()?);
+        }
+    }
+    Some(out)
+}
+
+fn ref_parse_v6(s: &str) -> Option<[u8; 16]> {
+    let groups: Vec<u16> = match s.find("::") {
+        None => {
+            let g = ref_v6_groups(s, true)?;
+            if g.len() != 8 {
+                return None;
+            }
+            g
+        }
+        Some(i) => {
+            let head = &s[..i];
+            let tail = &s[i + 2..];
+            if tail.contains("::") || tail.starts_with(':') || head.ends_with(':') {
+                return None;
+            }
+            let h = ref_v6_groups(head, false)?;
+            let t = ref_v6_groups(tail, true)?;
+            if h.len() + t.len() > 7 {
+                return None;
+            }
+            let mut g = h.clone();
+            g.resize(8 - t.len(), 0);
+            g.extend(t);
+            g
+        }
+    };
+    let mut out = [0u8; 16];
+    for (i, g) in groups.iter().enumerate() {
+        out[2 * i] = (g >> 8) as u8;
+        out[2 * i + 1] = (g & 0xff) as u8;
+    }
+    Some(out)
+}
+
+fn ref_parse_addr(s: &str) -> Option<RefAddr> {
+    if let Some(a) = ref_parse_v4(s) {
+        return Some(RefAddr::V4(a));
+    }
+    ref_parse_v6(s).map(RefAddr::V6)
+}
+
+/// A name taken relative to the root: canonical lower-case absolute form.
+fn ref_parse_name(s: &str) -> Option<String> {
+    if !s.is_ascii() || s.is_empty() {
+        return None;
+    }
+    if s == "." {
+        return Some(".".to_string());
+    }
+    let body = s.strip_suffix('.').unwrap_or(s);
+    let mut wire = 1usize;
+    let mut out = String::new();
+    for l in body.split('.') {
+        if l.is_empty() || l.len() > 63 {
+            return None;
+        }
+        wire += l.len() + 1;
+        out.push_str(&l.to_ascii_lowercase());
+        out.push('.');
+    }
+    if wire > 255 {
+        return None;
+    }
+    Some(out)
+}
+
+#[derive(Clone, Debug, PartialEq, Eq)]
+enum Expect {
+    Maps(RefHosts),
+    Error(String),
+    /// a line with a malformed address and no names: either an error or these mappings
+    Either(RefHosts, String),
+}
+
+#[derive(Clone, Debug, Default)]
+struct Features {
+    map_events: u32,
+    overrides: u32,
+    comment_lines: u32,
+    iface_lines: u32,
+    addr_only_lines: u32,
+    blank_lines: u32,
+    error_lines: u32,
+    unjudged_lines: u32,
+    multi_name_lines: u32,
+    lines: u32,
+}
+
+fn is_blank(c: char) -> bool {
+    c == ' ' || c == '\t'
+}
+
+fn ref_read(text: &str) -> (Expect, Features) {
+    let mut f = Features::default();
+    let mut h = RefHosts::default();
+    let mut error: Option<String> = None;
+    let mut unjudged: Option<String> = None;
+    let mut lines: Vec<&str> = text.split('\n').collect();
+    if lines.last() == Some(&"") {
+        lines.pop();
+    }
+    for raw in lines {
+        f.lines += 1;
+        let line = raw.strip_suffix('\r').unwrap_or(raw);
+        let body = match line.find('#') {
+            Some(i) => {
+                f.comment_lines += 1;
+                &line[..i]
+            }
+            None => line,
+        };
+        let fields: Vec<&str> = body.split(is_blank).filter(|s| !s.is_empty()).collect();
+        if fields.is_empty() {
+            f.blank_lines += 1;
+            continue;
+        }
+        let addr = fields[0];
+        if addr.contains('%') {
+            f.iface_lines += 1;
+            continue;
+        }
+        let names = &fields[1..];
+        let parsed = ref_parse_addr(addr);
+        if names.is_empty() {
+            if parsed.is_some() {
+                f.addr_only_lines += 1;
+            } else {
+                f.unjudged_lines += 1;
+                unjudged.get_or_insert_with(|| format!("malformed address {addr:?} with no names"));
+            }
+            continue;
+        }
+        let Some(parsed) = parsed else {
+            f.error_lines += 1;
+            error.get_or_insert_with(|| format!("malformed address {addr:?}"));
+            continue;
+        };
+        let mut keys = Vec::new();
+        let mut bad = false;
+        for n in names {
+            match ref_parse_name(n) {
+                Some(k) => keys.push(k),
+                None => {
+                    bad = true;
+                    error.get_or_insert_with(|| format!("malformed name {n:?}"));
+                }
+            }
+        }
+        if bad {
+            f.error_lines += 1;
+            continue;
+        }
+        if keys.len() > 1 {
+            f.multi_name_lines += 1;
+        }
+        for k in keys {
+            f.map_events += 1;
+            let replaced = match &parsed {
+                RefAddr::V4(a) => h.v4.insert(k, *a).is_some(),
+                RefAddr::V6(a) => h.v6.insert(k, *a).is_some(),
+            };
+            if replaced {
+                f.overrides += 1;
+            }
+        }
+    }
+    let e = match (error, unjudged) {
+        (Some(e), _) => Expect::Error(e),
+        (None, Some(u)) => Expect::Either(h, u),
+        (None, None) => Expect::Maps(h),
+    };
+    (e, f)
+}
+
+fn show_expect(e: &Expect) -> Value {
+    match e {
+        Expect::Maps(m) => json!({"ok": m.show()}),
+        Expect::Error(s) => json!({"error": s}),
+        Expect::Either(m, s) => json!({"either_error_or": m.show(), "because": s}),
+    }
+}
+
+// =====================================================================
+// Implementation side
+// =====================================================================
+
+fn name_key(n: &DomainName) -> String {
+    if n.labels.len() <= 1 {
+        return ".".to_string();
+    }
+    let mut s = String::new();
+    for l in &n.labels {
+        if l.is_empty() {
+            break;
+        }
+        for &b in l.octets().iter() {
+            s.push(b as char);
+        }
+        s.push('.');
+    }
+    s
+}
+
+fn dump_hosts(h: &Hosts) -> RefHosts {
+    let mut out = RefHosts::default();
+    for (n, a) in &h.v4 {
+        out.v4.insert(name_key(n), a.octets());
+    }
+    for (n, a) in &h.v6 {
+        out.v6.insert(name_key(n), a.octets());
+    }
+    out
+}
+
+#[derive(Clone, Debug)]
+enum ImplRead {
+    Ok(RefHosts),
+    Err(String),
+    Panic,
+}
+
+fn impl_read_raw(text: &str) -> Result<Result<Hosts, String>, ()> {
+    catch_unwind(AssertUnwindSafe(|| {
+        Hosts::deserialise(text).map_err(|e| format!("{e:?}"))
+    }))
+    .map_err(|_| ())
+}
+
+fn impl_read(text: &str) -> (ImplRead, Option<Hosts>) {
+    match impl_read_raw(text) {
+        Ok(Ok(h)) => (ImplRead::Ok(dump_hosts(&h)), Some(h)),
+        Ok(Err(e)) => (ImplRead::Err(e), None),
+        Err(()) => (ImplRead::Panic, None),
+    }
+}
+
+fn show_impl(r: &ImplRead) -> Value {
+    match r {
+        ImplRead::Ok(m) => json!({"ok": m.show()}),
+        ImplRead::Err(e) => json!({"error": e}),
+        ImplRead::Panic => json!("panic"),
+    }
+}
+
+fn agrees(e: &Expect, r: &ImplRead) -> bool {
+    match (e, r) {
+        (_, ImplRead::Panic) => false,
+        (Expect::Maps(m), ImplRead::Ok(g)) => m == g,
+        (Expect::Maps(_), ImplRead::Err(_)) => false,
+        (Expect::Error(_), ImplRead::Err(_)) => true,
+        (Expect::Error(_), ImplRead::Ok(_)) => false,
+        (Expect::Either(_, _), ImplRead::Err(_)) => true,
+        (Expect::Either(m, _), ImplRead::Ok(g)) => m == g,
+    }
+}
+
+// ---- the two repairs that define the narrow predicates of the expected defects
+
+/// Insert one blank before the first `#` of a line when it directly follows a
+/// non-blank character.  The hosts(5) meaning of the text is unchanged.
+fn repair_blank_before_hash(text: &str) -> String {
+    let mut out = String::with_capacity(text.len() + 4);
+    for (i, line) in text.split('\n').enumerate() {
+        if i > 0 {
+            out.push('\n');
+        }
+        match line.find('#') {
+            Some(p) if p > 0 && !line[..p].ends_with(is_blank) => {
+                out.push_str(&line[..p]);
+                out.push(' ');
+                out.push_str(&line[p..]);
+            }
+            _ => out.push_str(line),
+        }
+    }
+    out
+}
+
+/// Insert one blank after the first `#` of a line when it is directly
+/// followed by a non-ASCII character.  The meaning is unchanged (comment).
+fn repair_blank_after_hash(text: &str) -> String {
+    let mut out = String::with_capacity(text.len() + 4);
+    for (i, line) in text.split('\n').enumerate() {
+        if i > 0 {
+            out.push('\n');
+        }
+        match line.find('#') {
+            Some(p) if line[p + 1..].chars().next().map_or(false, |c| !c.is_ascii()) => {
+                out.push_str(&line[..=p]);
+                out.push(' ');
+                out.push_str(&line[p + 1..]);
+            }
+            _ => out.push_str(line),
+        }
+    }
+    out
+}
+
+/// Classify a disagreement between implementation and reference reader.
+/// Returns (clause, slug) pairs; a slug is given only when applying the
+/// defect's repair (and nothing else) makes the implementation agree.
+fn classify_read(
+    text: &str,
+    e: &Expect,
+    r: &ImplRead,
+    reader: &dyn Fn(&str) -> ImplRead,
+) -> Vec<(String, Option<&'static str>)> {
+    if matches!(r, ImplRead::Panic) {
+        return vec![("panic".into(), None)];
+    }
+    let r2 = repair_blank_after_hash(text);
+    let r1 = repair_blank_before_hash(text);
+    if r2 != text && agrees(e, &reader(&r2)) {
+        return vec![(CLAUSE_NONASCII.into(), Some(SLUG_NONASCII))];
+    }
+    if r1 != text && agrees(e, &reader(&r1)) {
+        return vec![(CLAUSE_NAME_HASH.into(), Some(SLUG_NAME_HASH))];
+    }
+    if r1 != text && r2 != text {
+        let r12 = repair_blank_before_hash(&r2);
+        if agrees(e, &reader(&r12)) {
+            return vec![
+                (CLAUSE_NAME_HASH.into(), Some(SLUG_NAME_HASH)),
+                (CLAUSE_NONASCII.into(), Some(SLUG_NONASCII)),
+            ];
+        }
+    }
+    let c = match (e, r) {
+        (Expect::Error(_), _) => "read-accepts-malformed",
+        (_, ImplRead::Err(_)) => "read-rejects-valid",
+        _ => "read-mapping",
+    };
+    vec![(c.into(), None)]
+}
+
+// =====================================================================
+// Conversions: serialise / Zone::from / try_from / resolve
+// =====================================================================
+
+fn expected_zone_dump(m: &RefHosts) -> Vec<String> {
+    let mut v = Vec::new();
+    for (n, a) in &m.v4 {
+        v.push(format!("{n} 5 A {}", Ipv4Addr::from(*a)));
+    }
+    for (n, a) in &m.v6 {
+        v.push(format!("{n} 5 AAAA {}", Ipv6Addr::from(*a)));
+    }
+    v.sort();
+    v
+}
+
+fn zone_dump(z: &Zone) -> Vec<String> {
+    let mut v = Vec::new();
+    for (n, zrs) in z.all_records() {
+        for zr in zrs {
+            v.push(format!("{} {} {}", name_key(n), zr.ttl, show_data(&zr.rtype_with_data)));
+        }
+    }
+    v.sort();
+    v
+}
+
+fn key_to_name(k: &str) -> Option<DomainName> {
+    DomainName::from_dotted_string(k)
+}
+
+/// All conversion clauses for one hosts value `h` whose mappings are `m`.
+/// Returns (clause, detail) for every failing clause; `lookups` is increased
+/// by the number of `Zone::resolve` calls made.
+fn check_conversions(h: &Hosts, m: &RefHosts, lookups: &mut u64) -> Vec<(String, String)> {
+    let mut bad: Vec<(String, String)> = Vec::new();
+    let res = catch_unwind(AssertUnwindSafe(|| {
+        let mut bad: Vec<(String, String)> = Vec::new();
+        let mut n_lookups = 0u64;
+        // --- serialise, read back
+        let s = h.serialise();
+        match Hosts::deserialise(&s) {
+            Ok(h2) => {
+                let d = dump_hosts(&h2);
+                if d != *m {
+                    bad.push((
+                        "serialise-roundtrip".into(),
+                        format!("serialised {:?} reads back as {}", s, d.show()),
+                    ));
+                }
+            }
+            Err(e) => bad.push((
+                "serialise-roundtrip".into(),
+                format!("serialised {:?} does not read back: {e:?}", s),
+            )),
+        }
+        // the written text means the same under the reference reader
+        match ref_read(&s).0 {
+            Expect::Maps(d) if d == *m => {}
+            other => bad.push((
+                "serialise-hosts5".into(),
+                format!("serialised {:?} means {} to the reference reader", s, show_expect(&other)),
+            )),
+        }
+        // --- to zone
+        let z = Zone::from(h.clone());
+        let want = expected_zone_dump(m);
+        let got = zone_dump(&z);
+        if got != want
+            || !z.all_wildcard_records().is_empty()
+            || z.is_authoritative()
+            || !z.get_apex().is_root()
+        {
+            bad.push((
+                "zone-records".into(),
+                format!(
+                    "Zone::from holds {:?} (wildcard sets {}, authoritative {}, apex {}) expected exactly {:?}",
+                    got,
+                    z.all_wildcard_records().len(),
+                    z.is_authoritative(),
+                    name_key(z.get_apex()),
+                    want
+                ),
+            ));
+        }
+        // --- back to hosts
+        match Hosts::try_from(z.clone()) {
+            Ok(h3) => {
+                let d = dump_hosts(&h3);
+                if d != *m || h3 != *h {
+                    bad.push((
+                        "zone-to-hosts".into(),
+                        format!("Hosts::try_from(Zone::from(h)) = {}", d.show()),
+                    ));
+                }
+            }
+            Err(e) => bad.push((
+                "zone-to-hosts".into(),
+                format!("Hosts::try_from(Zone::from(h)) failed: {e:?}"),
+            )),
+        }
+        let h4 = Hosts::from_zone_lossy(&z);
+        if dump_hosts(&h4) != *m {
+            bad.push((
+                "zone-to-hosts".into(),
+                format!("Hosts::from_zone_lossy(Zone::from(h)) = {}", dump_hosts(&h4).show()),
+            ));
+        }
+        // --- resolve
+        let mut names: Vec<&String> = m.v4.keys().chain(m.v6.keys()).collect();
+        names.sort();
+        names.dedup();
+        for k in names {
+            let Some(name) = key_to_name(k) else {
+                bad.push(("resolve".into(), format!("cannot build name {k:?}")));
+                continue;
+            };
+            for fam in [4u8, 6u8] {
+                let (qtype, want): (QueryType, Vec<ResourceRecord>) = if fam == 4 {
+                    (
+                        QueryType::Record(RecordType::A),
+                        m.v4.get(k)
+                            .map(|a| {
+                                vec![rr(&name, RecordTypeWithData::A { address: Ipv4Addr::from(*a) }, 5)]
+                            })
+                            .unwrap_or_default(),
+                    )
+                } else {
+                    (
+                        QueryType::Record(RecordType::AAAA),
+                        m.v6.get(k)
+                            .map(|a| {
+                                vec![rr(&name, RecordTypeWithData::AAAA { address: Ipv6Addr::from(*a) }, 5)]
+                            })
+                            .unwrap_or_default(),
+                    )
+                };
+                n_lookups += 1;
+                let got = z.resolve(&name, qtype);
+                let ok = matches!(&got, Some(ZoneResult::Answer { rrs }) if *rrs == want);
+                if !ok {
+                    bad.push((
+                        "resolve".into(),
+                        format!(
+                            "resolve({k}, {qtype}) = {:?} expected Answer {:?}",
+                            got.as_ref().map(crate::refzone::show_zone_result),
+                            canon_rrs(&want)
+                        ),
+                    ));
+                }
+            }
+        }
+        (bad, n_lookups)
+    }));
+    match res {
+        Ok((b, n)) => {
+            *lookups += n;
+            bad = b;
+        }
+        Err(_) => bad.push(("panic".into(), "a conversion panicked".into())),
+    }
+    bad
+}
+
+// =====================================================================
+// One case, shrinking, collection
+// =====================================================================
+
+fn replay_value(text: &str, binaries: bool) -> Value {
+    json!({
+        "kind": "hosts-text",
+        "text": text,
+        "text_hex": hex(text.as_bytes()),
+        "binaries": binaries,
+    })
+}
+
+/// Drop whole lines while `still(text)` stays true.
+fn shrink_lines(text: &str, still: &dyn Fn(&str) -> bool) -> String {
+    let mut cur: Vec<String> = text.split_inclusive('\n').map(String::from).collect();
+    let mut i = 0;
+    while cur.len() > 1 && i < cur.len() {
+        let mut cand = cur.clone();
+        cand.remove(i);
+        let t: String = cand.concat();
+        if still(&t) {
+            cur = cand;
+        } else {
+            i += 1;
+        }
+    }
+    cur.concat()
+}
+
+/// Keeps the `k` smallest witnesses per (clause, slug) and counts all.
+#[derive(Default)]
+struct Keep {
+    kept: BTreeMap<(String, Option<&'static str>), Vec<(usize, String, String, bool)>>,
+    counts: BTreeMap<String, u64>,
+}
+const KEEP_PER_CLAUSE: usize = 3;
+
+impl Keep {
+    fn wants(&self, clause: &str, slug: Option<&'static str>, len: usize) -> bool {
+        match self.kept.get(&(clause.to_string(), slug)) {
+            None => true,
+            Some(v) => v.len() < KEEP_PER_CLAUSE || v.last().map_or(true, |w| len < w.0),
+        }
+    }
+    fn count(&mut self, clause: &str, slug: Option<&'static str>) {
+        *self
+            .counts
+            .entry(format!("{}|{}", clause, slug.unwrap_or("")))
+            .or_insert(0) += 1;
+    }
+    fn add(&mut self, clause: &str, slug: Option<&'static str>, text: String, detail: String, binaries: bool) {
+        let v = self.kept.entry((clause.to_string(), slug)).or_default();
+        if v.iter().any(|w| w.1 == text) {
+            return;
+        }
+        v.push((text.len(), text, detail, binaries));
+        v.sort();
+        v.truncate(KEEP_PER_CLAUSE);
+    }
+    fn merge(&mut self, other: Keep) {
+        for (k, n) in other.counts {
+            *self.counts.entry(k).or_insert(0) += n;
+        }
+        for ((c, s), v) in other.kept {
+            for (_, t, d, b) in v {
+                self.add(&c, s, t, d, b);
+            }
+        }
+    }
+    fn into_violations(self) -> Vec<Violation> {
+        let mut out = Vec::new();
+        // clauses without a slug first: `finish` prints a bounded number
+        let mut groups: Vec<_> = self.kept.into_iter().collect();
+        groups.sort_by_key(|((c, s), _)| (s.is_some(), c.clone()));
+        for ((clause, slug), v) in groups {
+            for (_, text, detail, binaries) in v {
+                out.push(Violation {
+                    clause: clause.clone(),
+                    summary: format!("hosts text {:?}: {}", text, detail),
+                    replay: replay_value(&text, binaries),
+                    slug,
+                });
+            }
+        }
+        out
+    }
+}
+
+#[derive(Default)]
+struct Acc {
+    evaluations: u64,
+    tokens: u64,
+    lookups: u64,
+    conversions: u64,
+    seen: HashSet<u64>,
+    nontrivial_seen: HashSet<u64>,
+    hist: BTreeMap<String, u64>,
+    feat: BTreeMap<String, u64>,
+    keep: Keep,
+    samples: Vec<Value>,
+    bin_inputs: u64,
+    bin_spawns: u64,
+}
+
+fn bump(m: &mut BTreeMap<String, u64>, k: &str, n: u64) {
+    if n > 0 {
+        *m.entry(k.to_string()).or_insert(0) += n;
+    }
+}
+
+/// Run every in-process clause on one text.
+fn check_text(acc: &mut Acc, text: &str, tokens: u32) {
+    acc.evaluations += 1;
+    acc.tokens += u64::from(tokens);
+    let digest = fnv64(text.as_bytes());
+    let fresh = acc.seen.insert(digest);
+    let (expect, feat) = ref_read(text);
+    let (got, hosts) = impl_read(text);
+    if fresh {
+        let class = match &expect {
+            Expect::Maps(m) if m.len() == 0 => "ref:ok-no-mappings",
+            Expect::Maps(_) => "ref:ok-mappings",
+            Expect::Error(_) => "ref:error",
+            Expect::Either(_, _) => "ref:unjudged(malformed address without names)",
+        };
+        bump(&mut acc.hist, class, 1);
+        bump(
+            &mut acc.hist,
+            match &got {
+                ImplRead::Ok(m) if m.len() == 0 => "impl:ok-no-mappings",
+                ImplRead::Ok(_) => "impl:ok-mappings",
+                ImplRead::Err(_) => "impl:error",
+                ImplRead::Panic => "impl:panic",
+            },
+            1,
+        );
+        bump(&mut acc.feat, "texts-with-override(last-writer)", u64::from(feat.overrides > 0));
+        bump(&mut acc.feat, "texts-with-comment", u64::from(feat.comment_lines > 0));
+        bump(&mut acc.feat, "texts-with-iface-line", u64::from(feat.iface_lines > 0));
+        bump(&mut acc.feat, "texts-with-address-only-line", u64::from(feat.addr_only_lines > 0));
+        bump(&mut acc.feat, "texts-with-blank-or-comment-only-line", u64::from(feat.blank_lines > 0));
+        bump(&mut acc.feat, "texts-with-error-line", u64::from(feat.error_lines > 0));
+        bump(&mut acc.feat, "texts-with-multi-name-line", u64::from(feat.multi_name_lines > 0));
+        bump(&mut acc.feat, "texts-with-2+-lines", u64::from(feat.lines > 1));
+        if feat.map_events > 0 || feat.error_lines > 0 {
+            acc.nontrivial_seen.insert(digest);
+        }
+        if acc.samples.len() < 2 && acc.evaluations % 7919 == 3 {
+            acc.samples.push(json!({"text": text, "reference": show_expect(&expect), "implementation": show_impl(&got)}));
+        }
+    }
+
+    if !agrees(&expect, &got) {
+        for (clause, slug) in classify_read(text, &expect, &got, &|t| impl_read(t).0) {
+            acc.keep.count(&clause, slug);
+            if acc.keep.wants(&clause, slug, text.len()) {
+                let c2 = clause.clone();
+                let still = move |t: &str| {
+                    let (e, _) = ref_read(t);
+                    let (g, _) = impl_read(t);
+                    !agrees(&e, &g)
+                        && classify_read(t, &e, &g, &|t| impl_read(t).0).iter().any(|(c, s)| *c == c2 && *s == slug)
+                };
+                let small = shrink_lines(text, &still);
+                let (e, _) = ref_read(&small);
+                let (g, _) = impl_read(&small);
+                acc.keep.add(
+                    &clause,
+                    slug,
+                    small,
+                    format!("implementation {} but reference {}", show_impl(&g), show_expect(&e)),
+                    false,
+                );
+            }
+        }
+    }
+
+    if let Some(h) = hosts {
+        acc.conversions += 1;
+        let m = match &got {
+            ImplRead::Ok(m) => m.clone(),
+            _ => unreachable!(),
+        };
+        for (clause, detail) in check_conversions(&h, &m, &mut acc.lookups) {
+            acc.keep.count(&clause, None);
+            if acc.keep.wants(&clause, None, text.len()) {
+                acc.keep.add(&clause, None, text.to_string(), detail, false);
+            }
+        }
+    }
+}
+
+// =====================================================================
+// The enumerated space
+// =====================================================================
+
+struct Case {
+    text: String,
+    tokens: u32,
+}
+
+/// comment = (after how many fields, directly attached?, body)
+fn render_line(
+    lead: &str,
+    addr: &str,
+    names: &[&str],
+    sep1: &str,
+    sep2: &str,
+    comment: Option<(usize, bool, &str)>,
+    tail: &str,
+) -> Option<Case> {
+    let mut fields: Vec<&str> = vec![addr];
+    fields.extend_from_slice(names);
+    let mut tokens = 0u32;
+    let mut out = String::new();
+    out.push_str(lead);
+    if !lead.is_empty() {
+        tokens += 1;
+    }
+    let put_comment = |out: &mut String, tokens: &mut u32, direct: bool, body: &str| {
+        if !direct {
+            out.push(' ');
+        }
+        out.push('#');
+        out.push_str(body);
+        *tokens += 1;
+    };
+    if let Some((pos, direct, body)) = comment {
+        if pos > fields.len() {
+            return None;
+        }
+        if pos == 0 {
+            put_comment(&mut out, &mut tokens, direct, body);
+        }
+    }
+    for (i, f) in fields.iter().enumerate() {
+        if i == 1 {
+            out.push_str(sep1);
+        } else if i > 1 {
+            out.push_str(sep2);
+        } else if matches!(comment, Some((0, _, _))) {
+            out.push(' ');
+        }
+        out.push_str(f);
+        tokens += 2;
+        if let Some((pos, direct, body)) = comment {
+            if pos == i + 1 {
+                put_comment(&mut out, &mut tokens, direct, body);
+            }
+        }
+    }
+    out.push_str(tail);
+    tokens += 1;
+    Some(Case { text: out, tokens })
+}
+
+const V4_A: &str = "1.2.3.4";
+const V4_B: &str = "5.6.7.8";
+
+/// Valid address spellings (the last four carry an interface suffix).
+const ADDRS: [&str; 24] = [
+    "1.2.3.4",
+    "5.6.7.8",
+    "10.0.0.255",
+    "0.0.0.0",
+    "255.255.255.255",
+    "127.0.0.1",
+    "fd00:0:0:0:0:0:0:1",
+    "2001:0db8:0000:0000:0000:0000:0000:0001",
+    "::1",
+    "::",
+    "fd00::1",
+    "fd00:1::",
+    "2001:db8::1:0:0:1",
+    "FD00::ABCD",
+    "fD00::aBcD",
+    "fd00::abcd",
+    "::ffff:1.2.3.4",
+    "64:ff9b::10.0.0.255",
+    "::1.2.3.4",
+    "0:0:0:0:0:ffff:5.6.7.8",
+    "fe80::1%eth0",
+    "fe80::1%1",
+    "::1%lo",
+    "1.2.3.4%eth0",
+];
+
+const NAME_POOL: [&str; 10] = [
+    "foo", "FOO", "Foo.", "bar", "foo.bar", "Foo.BAR.", "a.b.c", "A.b.C.", "x-1", "h2.example.com",
+];
+
+fn namelists(pool: &[&'static str], max: usize) -> Vec<Vec<&'static str>> {
+    let mut out: Vec<Vec<&'static str>> = Vec::new();
+    let mut level: Vec<Vec<&'static str>> = vec![vec![]];
+    for _ in 0..max {
+        let mut next = Vec::new();
+        for l in &level {
+            for p in pool {
+                let mut n = l.clone();
+                n.push(*p);
+                next.push(n);
+            }
+        }
+        out.extend(next.iter().cloned());
+        level = next;
+    }
+    out
+}
+
+const COMMENT_BODIES: [&str; 9] = ["c", "", " c", "\u{e9}", " \u{e9}", "c\u{e9}", "c#d", "%x", "\t1.2.3.4 baz"];
+
+fn comment_options(max_pos: usize, bodies: &[&'static str]) -> Vec<Option<(usize, bool, &'static str)>> {
+    let mut v = vec![None];
+    for pos in 0..=max_pos {
+        for direct in [true, false] {
+            for b in bodies {
+                v.push(Some((pos, direct, *b)));
+            }
+        }
+    }
+    v
+}
+
+const SEPS: [(&str, &str); 4] = [(" ", " "), ("\t", "\t"), ("  ", " \t"), (" \t ", "\t\t")];
+const LEADS: [&str; 3] = ["", " ", "\t "];
+const TAILS: [&str; 9] = ["", "\n", "\r\n", " ", " \n", " \r\n", "\t ", "\t \n", " \t\r\n"];
+
+struct Family {
+    name: &'static str,
+    dims: Vec<usize>,
+    gen: Box<dyn Fn(&[usize]) -> Option<Case> + Sync + Send>,
+}
+
+impl Family {
+    fn count(&self) -> usize {
+        self.dims.iter().product()
+    }
+    fn case(&self, mut idx: usize) -> Option<Case> {
+        let mut ix = Vec::with_capacity(self.dims.len());
+        for d in &self.dims {
+            ix.push(idx % d);
+            idx /= d;
+        }
+        (self.gen)(&ix)
+    }
+}
+
+fn label_of(n: usize) -> String {
+    "x".repeat(n)
+}
+
+fn malformed_texts() -> Vec<String> {
+    let mut v: Vec<String> = Vec::new();
+    let bad_addrs = [
+        "1.2.3", "1.2.3.256", "1.2.3.4.5", "1.2.3.a", "1.2.3.", ":::1", "1::2::3", "12345::1",
+        "fd00::g", "1:2:3:4:5:6:7", "1:2:3:4:5:6:7:8:9", "localhost", "1.2.3.4:", "::1.2.3",
+        "1.2.3.4::", "1.2.3.\u{e9}", "\u{e9}",
+    ];
+    for a in bad_addrs {
+        for t in [
+            format!("{a}"),
+            format!("{a}\n"),
+            format!("{a} foo"),
+            format!("{a}\tfoo bar\n"),
+            format!("{a} foo # c"),
+            format!("{a} # foo"),
+            format!("{a}#c"),
+            format!(" {a} foo\r\n"),
+            format!("# {a} foo"),
+            format!("{a} foo\n{V4_A} bar\n"),
+            format!("{V4_A} bar\n{a} foo\n"),
+            format!("{V4_A} bar\n{a}\n"),
+        ] {
+            v.push(t);
+        }
+    }
+    let l64 = label_of(64);
+    let n256 = format!("{}.{}.{}.{}", label_of(63), label_of(63), label_of(63), label_of(62));
+    let bad_names: Vec<String> = vec![
+        "foo..bar".into(),
+        ".foo".into(),
+        "foo..".into(),
+        "..".into(),
+        l64.clone(),
+        format!("{l64}.foo"),
+        format!("foo.{l64}."),
+        n256.clone(),
+        format!("{n256}."),
+        "f\u{f6}o".into(),
+        "\u{e9}".into(),
+        "foo.\u{e9}.bar".into(),
+    ];
+    for b in &bad_names {
+        for a in [V4_A, "fd00::1"] {
+            for t in [
+                format!("{a} {b}"),
+                format!("{a} {b}\n"),
+                format!("{a} foo {b}"),
+                format!("{a} {b} foo"),
+                format!("{a}\tfoo bar {b}\r\n"),
+                format!("{a} {b}#c"),
+                format!("{a} {b} # c"),
+                format!("{a} foo # {b}"),
+                format!("# {a} {b}"),
+                format!("{a} foo\n{a} {b}\n"),
+                format!("{a} {b}\n{a} foo\n"),
+            ] {
+                v.push(t);
+            }
+        }
+        v.push(format!("fe80::1%eth0 {b}"));
+        v.push(format!("fe80::1%eth0 foo {b}\n{V4_A} foo\n"));
+    }
+    // boundary-valid names
+    let l63 = label_of(63);
+    let n255 = format!("{}.{}.{}.{}", label_of(63), label_of(63), label_of(63), label_of(61));
+    for n in [l63.clone(), format!("{l63}."), format!("{l63}.foo"), n255.clone(), format!("{n255}.")] {
+        for a in [V4_A, "fd00::1"] {
+            v.push(format!("{a} {n}"));
+            v.push(format!("{a} foo {n}\n"));
+            v.push(format!("{a} {n}\n{V4_B} {n}\n"));
+        }
+    }
+    v
+}
+
+fn line_alphabet(tier: Tier) -> Vec<String> {
+    let mut v: Vec<String> = Vec::new();
+    let names: Vec<&str> = tier.pick(vec!["foo", "FOO.", "bar"], vec!["foo", "FOO.", "bar", "foo.bar", "Bar", "a.b.c", "Foo.Bar."]);
+    let addrs: Vec<&str> = tier.pick(
+        vec![V4_A, V4_B, "fd00::1", "FD00:0:0:0:0:0:0:2"],
+        vec![V4_A, V4_B, "10.0.0.255", "fd00::1", "FD00:0:0:0:0:0:0:2", "fd00:0:0:0:0:0:0:1", "::ffff:1.2.3.4", "fd00::2", "::"],
+    );
+    for a in &addrs {
+        for n in &names {
+            v.push(format!("{a} {n}"));
+        }
+    }
+    let pairs: Vec<(&str, &str)> = tier.pick(
+        vec![(V4_A, "foo bar"), ("fd00::2", "bar foo"), (V4_B, "foo.bar")],
+        vec![
+            (V4_A, "foo bar"),
+            (V4_B, "bar foo"),
+            ("fd00::2", "bar foo"),
+            ("fd00::1", "foo Bar"),
+            (V4_B, "foo.bar bar"),
+            (V4_A, "foo FOO foo."),
+            ("::1", "foo bar foo.bar"),
+        ],
+    );
+    for (a, n) in pairs {
+        v.push(format!("{a} {n}"));
+    }
+    let specials: Vec<&str> = vec![
+        "",
+        "# c",
+        "1.2.3.4",
+        "fe80::1%eth0 foo",
+        "5.6.7.8 foo#c",
+        "5.6.7.8 foo # c",
+        "5.6.7.8#c foo",
+        "#\u{e9}",
+        "# \u{e9}",
+        "5.6.7.8 bar #\u{e9}",
+        "bad foo",
+        "bad",
+        "1.2.3.4 foo..bar",
+        "\t5.6.7.8\tbar \t foo  ",
+        "::ffff:1.2.3.4 foo",
+        "1.2.3.4 fOO bar#c baz",
+        "5.6.7.8 f\u{f6}o",
+        "fe80::1%eth0 foo..bar",
+    ];
+    for s in specials {
+        v.push(s.to_string());
+    }
+    if tier == Tier::Thorough {
+        for s in [
+            " ",
+            "\t#c",
+            "fd00::1",
+            "::1%lo bar",
+            "fd00::2 foo#",
+            "fd00::2 foo bar # 1.2.3.4 baz",
+            "fd00::2# foo",
+            "1.2.3.4 foo #c\u{e9}",
+            "1.2.3.256 bar",
+            "1.2.3.256",
+            "fd00::1 .foo",
+            "fd00::2 bar foo \t",
+        ] {
+            v.push(s.to_string());
+        }
+    }
+    v.sort();
+    v.dedup();
+    v
+}
+
+fn families(tier: Tier) -> Vec<Family> {
+    let mut fams: Vec<Family> = Vec::new();
+
+    // S1a: every address spelling x a few name lists x separators x lead x tail x light comments
+    {
+        let lists: Vec<Vec<&'static str>> = tier.pick(
+            vec![vec!["foo"], vec!["FOO."], vec!["foo", "bar"], vec!["a.b.c", "Foo.BAR."], vec!["foo", "bar", "FOO"], vec!["x-1", "h2.example.com", "foo.bar"]],
+            {
+                let mut l = namelists(&NAME_POOL[..5], 1);
+                l.extend(namelists(&["foo", "Foo.BAR.", "a.b.c"], 2).into_iter().filter(|x| x.len() == 2));
+                l.extend(vec![vec!["foo", "bar", "FOO"], vec!["x-1", "h2.example.com", "foo.bar"]]);
+                l
+            },
+        );
+        let comments: Vec<Option<(usize, bool, &'static str)>> = vec![
+            None,
+            Some((9, true, "c")),  // 9 = after the last field (resolved below)
+            Some((1, true, "c")),
+            Some((9, false, "c")),
+            Some((9, true, "\u{e9}")),
+        ];
+        let comments: Vec<_> = comments.into_iter().take(tier.pick(3, 5)).collect();
+        let dims = vec![ADDRS.len(), lists.len(), SEPS.len(), LEADS.len(), TAILS.len(), comments.len()];
+        fams.push(Family {
+            name: "single-line/address-forms",
+            dims,
+            gen: Box::new(move |ix| {
+                let names = &lists[ix[1]];
+                let c = comments[ix[5]].map(|(p, d, b)| (if p == 9 { names.len() + 1 } else { p }, d, b));
+                render_line(LEADS[ix[3]], ADDRS[ix[0]], names, SEPS[ix[2]].0, SEPS[ix[2]].1, c, TAILS[ix[4]])
+            }),
+        });
+    }
+    // S1b: every name list
+    {
+        let lists: Vec<Vec<&'static str>> = match tier {
+            Tier::Quick => {
+                let mut l = namelists(&NAME_POOL[..8], 2);
+                l.extend(namelists(&["foo", "FOO", "bar", "Foo.BAR."], 3).into_iter().filter(|x| x.len() == 3));
+                l
+            }
+            Tier::Thorough => namelists(&NAME_POOL, 3),
+        };
+        let addrs = ["1.2.3.4", "fD00::aBcD", "fe80::1%eth0"];
+        let seps = [SEPS[0], SEPS[2]];
+        let tails = ["", "\r\n"];
+        let dims = vec![addrs.len(), lists.len(), seps.len(), tails.len(), 2];
+        fams.push(Family {
+            name: "single-line/name-lists",
+            dims,
+            gen: Box::new(move |ix| {
+                let names = &lists[ix[1]];
+                let c = if ix[4] == 1 { Some((names.len() + 1, true, "c")) } else { None };
+                render_line("", addrs[ix[0]], names, seps[ix[2]].0, seps[ix[2]].1, c, tails[ix[3]])
+            }),
+        });
+    }
+    // S1c: every comment position / attachment / body
+    {
+        let lists: Vec<Vec<&'static str>> = tier.pick(
+            vec![vec!["foo"], vec!["foo", "BAR."], vec!["foo", "bar", "a.b.c"]],
+            vec![vec!["foo"], vec!["FOO."], vec!["foo", "BAR."], vec!["bar", "foo"], vec!["foo", "bar", "a.b.c"], vec!["foo", "foo", "bar"]],
+        );
+        let addrs: Vec<&'static str> = tier.pick(
+            vec!["1.2.3.4", "fd00::1", "fe80::1%eth0", "1.2.3"],
+            vec!["1.2.3.4", "fd00::1", "FD00::ABCD", "::ffff:1.2.3.4", "fe80::1%eth0", "1.2.3", "1::2::3"],
+        );
+        let comments = comment_options(4, &COMMENT_BODIES);
+        let seps: Vec<(&str, &str)> = tier.pick(vec![SEPS[0], SEPS[3]], SEPS.to_vec());
+        let leads: Vec<&str> = tier.pick(vec!["", " "], LEADS.to_vec());
+        let tails: Vec<&str> = tier.pick(vec!["", "\n", " \r\n"], TAILS.to_vec());
+        let dims = vec![addrs.len(), lists.len(), comments.len(), seps.len(), leads.len(), tails.len()];
+        fams.push(Family {
+            name: "single-line/comment-positions",
+            dims,
+            gen: Box::new(move |ix| {
+                render_line(leads[ix[4]], addrs[ix[0]], &lists[ix[1]], seps[ix[3]].0, seps[ix[3]].1, comments[ix[2]], tails[ix[5]])
+            }),
+        });
+    }
+    // S1d: malformed classes and boundary-valid names
+    {
+        let texts = malformed_texts();
+        fams.push(Family {
+            name: "malformed-and-boundary",
+            dims: vec![texts.len()],
+            gen: Box::new(move |ix| {
+                let t = &texts[ix[0]];
+                Some(Case { tokens: t.split_whitespace().count() as u32 + 1, text: t.clone() })
+            }),
+        });
+    }
+    // M: files of 1..3 lines over the line alphabet
+    {
+        let alpha = line_alphabet(tier);
+        let n = alpha.len();
+        for k in 1..=3usize {
+            let alpha = alpha.clone();
+            // line-end style: 0 = LF after every line, 1 = CRLF after every line, 2 = LF between, none at the end
+            let styles = if k <= 2 { 3 } else { 1 };
+            let mut dims = vec![n; k];
+            dims.push(styles);
+            fams.push(Family {
+                name: match k {
+                    1 => "files/1-line",
+                    2 => "files/2-lines",
+                    _ => "files/3-lines",
+                },
+                dims,
+                gen: Box::new(move |ix| {
+                    let style = ix[k];
+                    let mut text = String::new();
+                    let mut tokens = 0u32;
+                    for j in 0..k {
+                        // ix[0] is the *last* line so that neighbouring indices share a prefix
+                        let line = &alpha[ix[k - 1 - j]];
+                        text.push_str(line);
+                        tokens += line.split_whitespace().count() as u32 + 1;
+                        let last = j == k - 1;
+                        match style {
+                            0 => text.push('\n'),
+                            1 => text.push_str("\r\n"),
+                            _ => {
+                                if !last {
+                                    text.push('\n');
+                                }
+                            }
+                        }
+                    }
+                    Some(Case { text, tokens })
+                }),
+            });
+        }
+    }
+    fams
+}
+
+/// Sub-corpus for the binaries (one process per input and per tool, so this
+/// is much smaller than the in-process space; a process start costs tens of
+/// milliseconds here).
+fn binary_corpus(tier: Tier) -> Vec<String> {
+    let mut set: Vec<String> = Vec::new();
+    let quick = tier == Tier::Quick;
+    // every address spelling with one and two names, comment forms
+    for a in ADDRS {
+        for names in [&["foo"][..], &["Foo.BAR.", "a.b.c"][..]] {
+            let comments: Vec<Option<(usize, bool, &str)>> = if quick {
+                if names.len() == 1 {
+                    vec![None]
+                } else if ["5.6.7.8", "::1", "fd00:1::", "FD00::ABCD", "::ffff:1.2.3.4", "fe80::1%eth0"].contains(&a) {
+                    vec![Some((names.len() + 1, true, "c"))]
+                } else {
+                    vec![]
+                }
+            } else {
+                vec![None, Some((names.len() + 1, true, "c")), Some((names.len() + 1, false, "c \u{e9}"))]
+            };
+            for c in comments {
+                if let Some(case) = render_line("", a, names, " ", "\t", c, "\n") {
+                    set.push(case.text);
+                }
+            }
+        }
+    }
+    if quick {
+        // one text per malformed class and position
+        for t in malformed_texts() {
+            let one_line = !t.trim_end_matches('\n').contains('\n');
+            if one_line
+                && !t.contains('#')
+                && !t.starts_with(' ')
+                && !t.ends_with('\n')
+                && !t.contains('\t')
+                && t.matches(' ').count() == 1
+                && (t.starts_with("1.2.3.4 ") || t.ends_with(" foo"))
+            {
+                set.push(t);
+            }
+        }
+    } else {
+        set.extend(malformed_texts());
+    }
+    let quick_alpha = line_alphabet(Tier::Quick);
+    let sub: Vec<&str> = vec![
+        "1.2.3.4 foo", "5.6.7.8 FOO.", "fd00::1 foo", "FD00:0:0:0:0:0:0:2 foo", "5.6.7.8 foo#c", "# c",
+        "fe80::1%eth0 foo", "1.2.3.4 foo bar", "5.6.7.8 foo", "", "#\u{e9}", "bad foo",
+    ];
+    for a in &quick_alpha {
+        set.push(format!("{a}\n"));
+    }
+    if quick {
+        for a in &sub[..5] {
+            for b in &sub[..5] {
+                set.push(format!("{a}\n{b}\n"));
+            }
+        }
+    } else {
+        let mut pair_alpha: Vec<&str> = sub.clone();
+        pair_alpha.extend([
+            "fd00::2 bar foo", "5.6.7.8 foo.bar", "1.2.3.4", "5.6.7.8 foo # c", "5.6.7.8#c foo", "# \u{e9}",
+            "1.2.3.4 foo..bar", "::ffff:1.2.3.4 foo",
+        ]);
+        for a in &pair_alpha {
+            for b in &pair_alpha {
+                set.push(format!("{a}\n{b}\n"));
+            }
+        }
+        for a in &sub[..7] {
+            for b in &sub[..7] {
+                for c in &sub[..7] {
+                    set.push(format!("{a}\r\n{b}\n{c}"));
+                }
+            }
+        }
+    }
+    set.sort();
+    set.dedup();
+    set
+}
+
+// =====================================================================
+// Binaries
+// =====================================================================
+
+fn bin_dir() -> PathBuf {
+    match std::env::var("VERIF_REPO_BIN") {
+        Ok(p) if !p.is_empty() => PathBuf::from(p),
+        _ => PathBuf::from("/verif/target/repo/release"),
+    }
+}
+
+fn run_bin(name: &str, args: &[&str], input: &[u8]) -> Result<(i32, Vec<u8>), String> {
+    let path = bin_dir().join(name);
+    let mut child = Command::new(&path)
+        .args(args)
+        .stdin(Stdio::piped())
+        .stdout(Stdio::piped())
+        .stderr(Stdio::null())
+        .spawn()
+        .map_err(|e| format!("cannot start {}: {e}", path.display()))?;
+    {
+        let mut stdin = child.stdin.take().ok_or("no stdin")?;
+        let _ = stdin.write_all(input);
+    }
+    let out = child.wait_with_output().map_err(|e| format!("wait {name}: {e}"))?;
+    Ok((out.status.code().unwrap_or(-1), out.stdout))
+}
+
+/// Outcome of a pipeline as seen through the reference reader.
+fn outcome_of(code: i32, stdout: &[u8]) -> ImplRead {
+    if code != 0 {
+        return ImplRead::Err(format!("exit code {code}"));
+    }
+    match std::str::from_utf8(stdout) {
+        Ok(s) => match ref_read(s).0 {
+            Expect::Maps(m) => ImplRead::Ok(m),
+            other => ImplRead::Err(format!("output {:?} is not a clean hosts file: {}", s, show_expect(&other))),
+        },
+        Err(_) => ImplRead::Err("output is not UTF-8".into()),
+    }
+}
+
+/// Returns Err on machinery failure (binary cannot be started).
+fn check_binaries(acc: &mut Acc, text: &str) -> Result<(), String> {
+    acc.bin_inputs += 1;
+    let (expect, _) = ref_read(text);
+    let (_lib, lib_hosts) = impl_read(text);
+    let lib_out: Option<String> = lib_hosts.as_ref().map(|h| h.serialise());
+
+    let (c1, o1) = run_bin("htoh", &[], text.as_bytes())?;
+    let (c2, o2) = run_bin("htoz", &[], text.as_bytes())?;
+    acc.bin_spawns += 2;
+    let (c3, o3) = if c2 == 0 {
+        acc.bin_spawns += 1;
+        run_bin("ztoh", &["--strict"], &o2)?
+    } else {
+        (c2, Vec::new())
+    };
+
+    let report = |acc: &mut Acc, clause: String, slug: Option<&'static str>, detail: String| {
+        acc.keep.count(&clause, slug);
+        if acc.keep.wants(&clause, slug, text.len()) {
+            acc.keep.add(&clause, slug, text.to_string(), detail, true);
+        }
+    };
+
+    // binaries against the library
+    match &lib_out {
+        Some(s) => {
+            if c1 != 0 || o1 != s.as_bytes() {
+                report(acc, "htoh-vs-library".into(), None, format!("htoh exit {c1} output {:?} but library writes {:?}", String::from_utf8_lossy(&o1), s));
+            }
+            if c2 != 0 || c3 != 0 || o3 != s.as_bytes() {
+                report(acc, "htoz-ztoh-vs-library".into(), None, format!("htoz exit {c2}, ztoh --strict exit {c3} output {:?} but library writes {:?}", String::from_utf8_lossy(&o3), s));
+            }
+        }
+        None => {
+            if c1 == 0 || !o1.is_empty() {
+                report(acc, "htoh-vs-library".into(), None, format!("htoh exit {c1} output {:?} but the library reports an error", String::from_utf8_lossy(&o1)));
+            }
+            if c2 == 0 || !o2.is_empty() {
+                report(acc, "htoz-ztoh-vs-library".into(), None, format!("htoz exit {c2} but the library reports an error"));
+            }
+        }
+    }
+    // binaries against the reference reader
+    let spawns = std::cell::Cell::new(0u64);
+    let read_htoh = |t: &str| -> ImplRead {
+        spawns.set(spawns.get() + 1);
+        match run_bin("htoh", &[], t.as_bytes()) {
+            Ok((c, o)) => outcome_of(c, &o),
+            Err(e) => ImplRead::Err(e),
+        }
+    };
+    let read_pipe = |t: &str| -> ImplRead {
+        spawns.set(spawns.get() + 2);
+        match run_bin("htoz", &[], t.as_bytes()) {
+            Ok((0, z)) => match run_bin("ztoh", &["--strict"], &z) {
+                Ok((c, o)) => outcome_of(c, &o),
+                Err(e) => ImplRead::Err(e),
+            },
+            Ok((c, _)) => ImplRead::Err(format!("exit code {c}")),
+            Err(e) => ImplRead::Err(e),
+        }
+    };
+    let readers: [(&str, ImplRead, &dyn Fn(&str) -> ImplRead); 2] =
+        [("htoh", outcome_of(c1, &o1), &read_htoh), ("htoz|ztoh", outcome_of(c3, &o3), &read_pipe)];
+    for (tag, outcome, reader) in readers {
+        bump(
+            &mut acc.hist,
+            &format!(
+                "{tag}:{}",
+                match &outcome {
+                    ImplRead::Ok(m) if m.len() == 0 => "ok-no-mappings",
+                    ImplRead::Ok(_) => "ok-mappings",
+                    _ => "error",
+                }
+            ),
+            1,
+        );
+        if !agrees(&expect, &outcome) {
+            for (clause, slug) in classify_read(text, &expect, &outcome, reader) {
+                report(
+                    acc,
+                    format!("{tag}:{clause}"),
+                    slug,
+                    format!("{tag} gives {} but reference {}", show_impl(&outcome), show_expect(&expect)),
+                );
+            }
+        }
+    }
+    acc.bin_spawns += spawns.get();
+    Ok(())
+}
+
+// =====================================================================
+// Entry points
+// =====================================================================
+
+fn merge_acc(total: &mut Acc, p: Acc) {
+    total.evaluations += p.evaluations;
+    total.tokens += p.tokens;
+    total.lookups += p.lookups;
+    total.conversions += p.conversions;
+    total.bin_inputs += p.bin_inputs;
+    total.bin_spawns += p.bin_spawns;
+    total.seen.extend(p.seen);
+    total.nontrivial_seen.extend(p.nontrivial_seen);
+    for (k, v) in p.hist {
+        *total.hist.entry(k).or_insert(0) += v;
+    }
+    for (k, v) in p.feat {
+        *total.feat.entry(k).or_insert(0) += v;
+    }
+    total.keep.merge(p.keep);
+    for s in p.samples {
+        if total.samples.len() < 6 {
+            total.samples.push(s);
+        }
+    }
+}
+
+pub fn run(ctx: &Ctx) -> i32 {
+    let cap = ctx.tier.pick(40.0, 520.0);
+    let fams = families(ctx.tier);
+    let mut total = Acc::default();
+    let mut report = Report::new();
+    let mut exhaustive = true;
+    let mut fam_counts = serde_json::Map::new();
+    let mut skipped_total = 0u64;
+
+    // self-test of the two repairs: they must not change the reference meaning
+    for t in ["1.2.3.4 foo#c\n#\u{e9}\n", "1.2.3.4 foo #\u{e9}x\n"] {
+        let a = ref_read(t).0;
+        if ref_read(&repair_blank_before_hash(t)).0 != a || ref_read(&repair_blank_after_hash(t)).0 != a {
+            eprintln!("C14: machinery error: a repair changes the reference meaning of {t:?}");
+            return 2;
+        }
+    }
+
+    for fam in &fams {
+        if ctx.elapsed() > cap {
+            exhaustive = false;
+            report.extra.insert("cap_hit_before_family".into(), json!(fam.name));
+            break;
+        }
+        let n = fam.count();
+        let stop = std::sync::atomic::AtomicBool::new(false);
+        let parts = par_fold(
+            n,
+            ctx.threads,
+            ctx.seed,
+            || (Acc::default(), 0u64),
+            |st, i| {
+                if stop.load(std::sync::atomic::Ordering::Relaxed) {
+                    st.1 += 1;
+                    return;
+                }
+                if i % 4096 == 0 && ctx.elapsed() > cap {
+                    stop.store(true, std::sync::atomic::Ordering::Relaxed);
+                }
+                match fam.case(i) {
+                    Some(c) => check_text(&mut st.0, &c.text, c.tokens),
+                    None => st.1 += 1,
+                }
+            },
+        );
+        let before = total.evaluations;
+        let mut skipped = 0u64;
+        for (p, s) in parts {
+            skipped += s;
+            merge_acc(&mut total, p);
+        }
+        if stop.load(std::sync::atomic::Ordering::Relaxed) {
+            exhaustive = false;
+            report.extra.insert("cap_hit_in_family".into(), json!(fam.name));
+        }
+        skipped_total += skipped;
+        fam_counts.insert(
+            fam.name.to_string(),
+            json!({"index_space": n, "texts_run": total.evaluations - before, "indices_without_a_text": skipped, "dims": fam.dims}),
+        );
+    }
+
+    // binaries
+    let t_inproc = ctx.elapsed();
+    let corpus = binary_corpus(ctx.tier);
+    let bins_present = ["htoh", "htoz", "ztoh"].iter().all(|b| bin_dir().join(b).is_file());
+    if !bins_present {
+        eprintln!(
+            "C14: machinery error: htoh/htoz/ztoh not found in {} (run /verif/check C14, or set VERIF_REPO_BIN)",
+            bin_dir().display()
+        );
+        return 2;
+    }
+    let machinery: std::sync::Mutex<Option<String>> = std::sync::Mutex::new(None);
+    let stop = std::sync::atomic::AtomicBool::new(false);
+    let parts = par_fold(corpus.len(), ctx.threads, ctx.seed, Acc::default, |acc, i| {
+        if stop.load(std::sync::atomic::Ordering::Relaxed) {
+            return;
+        }
+        if ctx.elapsed() > ctx.tier.pick(50.0, 500.0) {
+            stop.store(true, std::sync::atomic::Ordering::Relaxed);
+            return;
+        }
+        if let Err(e) = check_binaries(acc, &corpus[i]) {
+            *machinery.lock().unwrap() = Some(e);
+            stop.store(true, std::sync::atomic::Ordering::Relaxed);
+        }
+    });
+    if let Some(e) = machinery.lock().unwrap().take() {
+        eprintln!("C14: machinery error: {e}");
+        return 2;
+    }
+    for p in parts {
+        merge_acc(&mut total, p);
+    }
+    if stop.load(std::sync::atomic::Ordering::Relaxed) {
+        exhaustive = false;
+        report.extra.insert("cap_hit_in".into(), json!("binary corpus"));
+    }
+
+    // a few fixed samples so that the evidence shows what cases look like
+    for t in ["1.2.3.4 foo bar # c\n", "FD00::ABCD Foo.BAR.\r\nfd00::abcd foo.bar\n", "fe80::1%eth0 foo\n1.2.3 \n"] {
+        let (e, _) = ref_read(t);
+        let (g, _) = impl_read(t);
+        total.samples.push(json!({"text": t, "reference": show_expect(&e), "implementation": show_impl(&g)}));
+    }
+
+    report.evaluations = total.evaluations + total.bin_inputs;
+    report.states = total.seen.len() as u64;
+    report.transitions = total.tokens + total.lookups + total.bin_spawns;
+    report.traces_validated = total.evaluations + total.bin_inputs;
+    report.distinct_nontrivial = total.nontrivial_seen.len() as u64;
+    report.rule = "texts are rendered from mixed-radix indices over the stated dimensions (families below) and every one is read by Hosts::deserialise and by the reference reader; a text is distinct by its bytes (FNV-64 set) and non-trivial when the reference reader sees at least one line that maps names (valid or erroneous) — texts that map nothing (blank, comment-only, address-only, interface-suffix lines only) are trivial; feature counts (override, comment, iface, error lines) are in `features`".into();
+    report.samples = total.samples.drain(..).take(6).collect();
+    report.bounds = json!({
+        "families": fam_counts,
+        "address_spellings": ADDRS,
+        "name_pool": NAME_POOL,
+        "comment_bodies": COMMENT_BODIES,
+        "separators": SEPS.iter().map(|s| format!("{:?}/{:?}", s.0, s.1)).collect::<Vec<_>>(),
+        "line_alphabet_for_files": line_alphabet(ctx.tier),
+        "binary_corpus_inputs": corpus.len(),
+        "indices_without_a_text(comment position beyond the last field)": skipped_total,
+    });
+    report.exhaustive = exhaustive;
+    report.outcome_histogram = total.hist.clone();
+    report.extra.insert("features".into(), json!(total.feat));
+    report.extra.insert("conversions_checked".into(), json!(total.conversions));
+    report.extra.insert("zone_lookups".into(), json!(total.lookups));
+    report.extra.insert("wall_in_process_s".into(), json!(t_inproc));
+    report.extra.insert("wall_binaries_s".into(), json!(ctx.elapsed() - t_inproc));
+    report.extra.insert("binary_inputs".into(), json!(total.bin_inputs));
+    report.extra.insert("binary_process_spawns".into(), json!(total.bin_spawns));
+    report.extra.insert("violation_counts".into(), json!(total.keep.counts));
+    report.assumptions = vec![
+        "blanks are space and tab; lines end in LF or CR LF; other ASCII white space is not generated".into(),
+        "a line whose only field is a malformed address is not judged (error and ignore both accepted)".into(),
+        "an address field containing `%` is an interface-suffix address whatever precedes the `%`; only well-formed prefixes are generated".into(),
+        "IPv4 octets with leading zeros, the name `.`, labels outside letters/digits/hyphen and `*` labels are not generated (hosts(5) and the statement leave them open)".into(),
+        "name comparison is ASCII case-insensitive; the reference keeps names lower-cased".into(),
+        "binaries htoh/htoz/ztoh are those built from /repo by /verif/check (or VERIF_REPO_BIN)".into(),
+    ];
+    report.violations = std::mem::take(&mut total.keep).into_violations();
+    finish(ctx, report)
+}
+
+pub fn replay(ctx: &Ctx, v: &Value) -> i32 {
+    let text = match v["text_hex"].as_str() {
+        Some(h) => String::from_utf8_lossy(&unhex(h)).to_string(),
+        None => v["text"].as_str().unwrap_or("").to_string(),
+    };
+    let mut acc = Acc::default();
+    let (e, _) = ref_read(&text);
+    let (g, _) = impl_read(&text);
+    println!("text:           {:?}", text);
+    println!("reference:      {}", show_expect(&e));
+    println!("implementation: {}", show_impl(&g));
+    check_text(&mut acc, &text, 0);
+    if v["binaries"].as_bool().unwrap_or(false) {
+        if let Err(e) = check_binaries(&mut acc, &text) {
+            eprintln!("C14: machinery error: {e}");
+            return 2;
+        }
+    }
+    let counts = acc.keep.counts.clone();
+    let vs = acc.keep.into_violations();
+    for v in &vs {
+        println!("clause {} {}: {}", v.clause, v.slug.map(|s| format!("[{s}]")).unwrap_or_default(), v.summary);
+    }
+    if counts.is_empty() {
+        println!("replay: property holds on this case");
+        0
+    } else {
+        println!("VIOLATION property={} replay=(replayed case)", ctx.id);
+        1
+    }
+}
+
 pub fn worker(_args: &[String]) -> i32 {
     2
 }
